@@ -238,6 +238,10 @@ fn run_history(s: &Session, fresh_probe: &[String], r: &mut CaseResult) -> (usiz
                             format!("after the error `{}` the probe program gives {:?} / {:?}, on a fresh evaluator {:?}\n--- {name}\n{src}", e.without_diagnostic(), pr.as_ref().map(|_| ()).map_err(|e| format!("{}", e.without_diagnostic())), tx, fresh_probe),
                         );
                     }
+                    // every name the module knows (including names introduced by the failed evaluation) can be read
+                    for n in module.names().map(|n| n.as_str().to_owned()).collect::<Vec<_>>() {
+                        let _ = module.get(&n).map(|v| v.get_type());
+                    }
                     let marker = module.get("MARKER").map(sl::encode);
                     if marker.as_deref() != Some("[1,2,3]") {
                         r.fail("not-recoverable", format!("module variable defined before the failing evaluation changed: {marker:?}\n--- {name}\n{src}"));
@@ -273,7 +277,8 @@ fn gen_args(ch: &mut Choices) -> String {
 const BINOPS: &[&str] = &["+", "-", "*", "/", "//", "%", "&", "|", "^", "<<", ">>", "==", "!=", "<", "<=", ">", ">=", "in", "not in", "and", "or"];
 
 fn is_big_count(s: &str) -> bool {
-    matches!(s, "2147483647" | "2147483648" | "9223372036854775807" | "9223372036854775808" | "(1 << 200)" | "1000000" | "1e308" | "float(\"inf\")")
+    // negative extremes count too: `range(-2**31, 8)` has 2**31 elements
+    matches!(s, "2147483647" | "2147483648" | "-2147483648" | "-2147483649" | "9223372036854775807" | "9223372036854775808" | "-9223372036854775809" | "(1 << 200)" | "-(1 << 200)" | "1000000" | "1e308" | "float(\"inf\")")
 }
 
 fn is_sized(s: &str) -> bool {
@@ -411,7 +416,14 @@ fn gen_history(ch: &mut Choices) -> Vec<(String, String)> {
                         .map(|_| {
                             if ch.chance(1, 5) {
                                 let v = *ch.pick(POOL);
-                                if is_big_count(v) { Some("1000") } else { Some(v) }
+                                if is_big_count(v) {
+                                    Some("1000")
+                                } else if (is_sized(v) || v.contains("range(") || v.contains("SELF_") || v.contains("* 1000")) && !matches!(v, "[]" | "()" | "\"\"" | "{}") {
+                                    // a non-empty sequence substituted next to `* <variable>` would multiply into gigabytes
+                                    Some("[]")
+                                } else {
+                                    Some(v)
+                                }
                             } else {
                                 None
                             }
